@@ -6,6 +6,7 @@
    The domain of the property ("no % conversion carries a key, flag, width, precision or length") is plain_percents. *)
 From Coq Require Import List NArith ZArith Bool.
 From I18n Require Import Lib.Outcome Model.FmtPython Model.FmtInstances Spec.CPyPercent Proofs.FmtPythonDir Proofs.FmtPython Proofs.FmtPythonArgs Proofs.FmtPythonGen.
+From I18n Require Import Model.FmtPythonPy Generated.FmtPythonSrc Proofs.FmtPythonSrc Proofs.FmtPythonSrcScan.
 Import ListNotations.
 Local Open Scope N_scope.
 
@@ -68,6 +69,128 @@ Theorem C12_domain_needed :
   cpy_syntax_error [37; 53; 37] = true /\ plain_percents [37; 53; 37] = false.
 Proof. exact domain_needed. Qed.
 Print Assumptions C12_domain_needed.
+
+(* ---------------------------------------------------------------- source tie (notes/SRC11.md)
+   Generated/FmtPythonSrc.v is the statement-by-statement translation of FormatString.__init__, FormatString.add_argument and
+   Conversion.__init__ of the working tree's lib/strformat/python.py (tools/gen/gen_fmtpython_src.py, regenerated on every
+   run).  Each translated definition equals the hand-written model for all arguments; of_out / of_state / of_sig / of_seq /
+   of_map / of_warns (Proofs/FmtPythonSrc.v) embed the model's values into the vocabulary of the translation. *)
+Theorem C12_source_tie_add_argument_seq : forall inf st a,
+  src_FormatString_add_argument inf (of_seq (st_seq st)) (of_map (st_map st)) None (of_seqarg a)
+  = match add_seq st a with Some st' => FOk (st_pair st') | None => FRaise KIndexError None end.
+Proof. exact src_add_argument_seq. Qed.
+Print Assumptions C12_source_tie_add_argument_seq.
+
+Theorem C12_source_tie_add_argument_map : forall inf st k t,
+  src_FormatString_add_argument inf (of_seq (st_seq st)) (of_map (st_map st)) (Some k) (AConv (tyname t))
+  = match add_map st k t with Some st' => FOk (st_pair st') | None => FRaise KIndexError None end.
+Proof. exact src_add_argument_map. Qed.
+Print Assumptions C12_source_tie_add_argument_map.
+
+(* the loop over flags.items() of Conversion.__init__ *)
+Theorem C12_source_tie_conversion_flags : forall inf s conv fl w,
+  src_Conversion_init_for1 inf fl w s conv
+  = match flag_warns inf conv fl with Some ws => FOk (w ++ of_warns ws) | None => FAssert end.
+Proof. exact src_conversion_for1_eq. Qed.
+Print Assumptions C12_source_tie_conversion_flags.
+
+(* Conversion.__init__ on what the scanner passes (width / prec are None for the `*` forms); the only assumption is that the
+   text of the conversion is not empty (s[-1] would raise IndexError; the scanner always passes at least "%" + conv) *)
+Theorem C12_source_tie_conversion_init : forall inf st d, d_text d <> [] ->
+  src_Conversion_init inf (of_seq (st_seq st)) (of_map (st_map st)) (of_warns (st_warn st))
+    (d_text d) (d_key d) (d_flags d) (of_width d) (d_var_width d) (of_prec d) (d_var_prec d) (d_length d) (d_conv d)
+  = of_out of_state (conv_init inf st d).
+Proof. exact src_conversion_init_eq. Qed.
+Print Assumptions C12_source_tie_conversion_init.
+
+(* the inner loops of the scanner: key (pcount), flags, width digits, precision digits.  it_at s t = the enumerate iterator
+   whose remaining text is the suffix t of s, pos s t = the index of the first character of t *)
+Theorem C12_source_tie_scan_key : forall inf F s i fuel t n acc ch j,
+  (1 <= n)%nat -> (length t <= length s)%nat -> (length t < fuel)%nat ->
+  src_FormatString_init_while2 inf F fuel s (it_at s t) i ch j (Z.of_nat n) =
+  match key_scan t n acc with
+  | None => FRaise KError (Some (pyslice_from s i))
+  | Some (_, t') =>
+    match t' with
+    | [] => FRaise KError (Some (pyslice_from s i))
+    | c' :: r' => FOk (pos s t', c', it_at s r', 0%Z)
+    end
+  end.
+Proof. exact src_while2_eq. Qed.
+Print Assumptions C12_source_tie_scan_key.
+
+Theorem C12_source_tie_scan_flags : forall inf F s i fuel c r fl,
+  (length (c :: r) <= length s)%nat -> (length (c :: r) < fuel)%nat ->
+  src_FormatString_init_while3 inf F fuel s (it_at s r) i c (pos s (c :: r)) fl =
+  match flags_scan (i_flags inf) (c :: r) fl with
+  | None => FRaise KError (Some (pyslice_from s i))
+  | Some (fl', t') => FOk (fl', pos s t', hd 0 t', it_at s (tl t'))
+  end.
+Proof. exact src_while3_eq. Qed.
+Print Assumptions C12_source_tie_scan_flags.
+
+Theorem C12_source_tie_scan_width : forall inf F s i fuel c r acc,
+  (length (c :: r) <= length s)%nat -> (length (c :: r) < fuel)%nat ->
+  src_FormatString_init_while4 inf F fuel s (it_at s r) i c (pos s (c :: r)) acc =
+  match digits_scan (c :: r) acc with
+  | None => FRaise KError (Some (pyslice_from s i))
+  | Some (z, t') => FOk (z, pos s t', hd 0 t', it_at s (tl t'))
+  end.
+Proof. exact src_while4_eq. Qed.
+Print Assumptions C12_source_tie_scan_width.
+
+Theorem C12_source_tie_scan_prec : forall inf F s i fuel c r acc,
+  (length (c :: r) <= length s)%nat -> (length (c :: r) < fuel)%nat ->
+  src_FormatString_init_while5 inf F fuel s (it_at s r) i c (pos s (c :: r)) acc =
+  match digits_scan (c :: r) acc with
+  | None => FRaise KError (Some (pyslice_from s i))
+  | Some (z, t') => FOk (z, pos s t', hd 0 t', it_at s (tl t'))
+  end.
+Proof. exact src_while5_eq. Qed.
+Print Assumptions C12_source_tie_scan_prec.
+
+(* the outer `while True:` = the model's ploop, fuel for fuel (also when the fuel runs out), from every suffix t of s and every
+   state; F, the fuel handed to the inner loops, only has to exceed len(s) *)
+Theorem C12_source_tie_scan_loop : forall inf F s, (length s < F)%nat -> forall fuel t st i0, suffix s t ->
+  drop_cursor (src_FormatString_init_while1 inf F fuel s (of_seq (st_seq st)) (of_map (st_map st)) (of_warns (st_warn st)) (it_at s t) i0)
+  = of_out of_state (ploop inf fuel t st).
+Proof. exact src_while1_eq. Qed.
+Print Assumptions C12_source_tie_scan_loop.
+
+(* the final loop: len(frozenset(a.type for a in args)) > 1 *)
+Theorem C12_source_tie_type_mismatch : forall inf s m,
+  src_FormatString_init_for6 inf (of_map m) s
+  = if existsb (fun kv => mixed_types (snd kv)) m then FRaise KArgumentTypeMismatch None else FOk tt.
+Proof. exact src_for6_eq. Qed.
+Print Assumptions C12_source_tie_type_mismatch.
+
+(* FormatString.__init__ as a whole = fmtpy_parse, for every table record and every string; the result is the tuple of public
+   attributes (warnings, seq_arguments, seq_conversions, map_arguments); the fuel is the model's own, len(s) + 1 *)
+Theorem C12_source_tie_formatstring_init : forall inf s,
+  src_FormatString_init inf (S (length s)) s = of_out of_sig (fmtpy_parse inf s).
+Proof. exact src_formatstring_init_eq. Qed.
+Print Assumptions C12_source_tie_formatstring_init.
+
+(* the model's C12_own_errors read on the translated code (today's tables): normal end or one of the module's own error classes;
+   no AssertionError, IndexError, TypeError, no FFuel *)
+Theorem C12_source_tie_own_errors : forall s,
+  match src_FormatString_init std_info (S (length s)) s with
+  | FOk _ => True | FRaise k _ => own_class k | FAssert | FFuel => False
+  end.
+Proof. exact src_formatstring_init_own_errors. Qed.
+Print Assumptions C12_source_tie_own_errors.
+
+(* the translated code runs: "%*.*f%%%u" and "%(a(b))s %(a(b))d" on the tables of the working tree *)
+Example C12_src_ex_seq : src_FormatString_init gen_info 10 [37;42;46;42;102;37;37;37;117]
+  = FOk ([PWarn KObsoleteConversion [AStr [37; 117]; AStr [37; 100]]],
+         [AVarWidth; AVarPrec; AConv [102; 108; 111; 97; 116]; AConv [105; 110; 116]],
+         [AConv [102; 108; 111; 97; 116]; AConv [105; 110; 116]], []).
+Proof. vm_compute. reflexivity. Qed.
+Example C12_src_ex_mismatch : src_FormatString_init gen_info 18 [37;40;97;40;98;41;41;115;32;37;40;97;40;98;41;41;100]
+  = FRaise KArgumentTypeMismatch None.
+Proof. vm_compute. reflexivity. Qed.
+Example C12_src_ex_error : src_FormatString_init gen_info 8 [120;37;40;97] = FRaise KError (Some [37;40;97]).
+Proof. vm_compute. reflexivity. Qed.
 
 (* non-vacuity *)
 (* "%(a(b))s %(a(b))d": one key, two types *)
